@@ -172,13 +172,13 @@ def run(ctx):
         add("K %d %d %s %s %s" % (n, en, " ".join(map(str, ta)), " ".join(map(str, flags)), " ".join(map(str, code))), "K", (n, en, ta, flags, code))
     # ---- mj_updateSleepInit on generated models
     FEATS = [1 | 1 << 15, 1 | 2 | 4 | 1 << 15 | 1 << 9, 1 << 15, 1 | 1 << 15 | 1 << 9 | 1 << 4, 0]
-    for rep in range(150 if quick else 1500):
+    for rep in range(100 if quick else 1500):
         add("U %d %d %d %d %d" % (rng.randrange(1, 10 ** 6), rng.choice(FEATS), rng.randrange(1, 12), rng.randrange(2), rng.randrange(10 ** 6)), "U", None)
     # ---- pipeline scenarios
-    nscen = 10 if quick else 80
+    nscen = 7 if quick else 80
     for rep in range(nscen):
         variant = rng.choice([0, 0, 1, 2, 3, 8, 4, 5]) if rep >= 3 else [0, 4, 1][rep]
-        add("P %d %d %d %d" % (rng.randrange(1, 10 ** 6), rng.randrange(2, 11), 1500 if quick else 3000, variant), "P", None)
+        add("P %d %d %d %d" % (rng.randrange(1, 10 ** 6), rng.randrange(2, 11), 1200 if quick else 3000, variant), "P", None)
     rc, out, err = ctx.run(exe, "\n".join(cmds) + "\n", timeout=900)
     lines = out.split("\n")
     if rc != 0:
@@ -301,7 +301,7 @@ def run(ctx):
     ctx.cov["evaluations"] = len(coq_cases)
     ctx.cov["distinct_nontrivial"] = stats["sleep_events"] + stats["wake_events"]
     ctx.cov["exhaustive_part"] = "mj_sleepCycle/mj_wakeIsland on all arrays of length <= %d over {-3,-1,0..n} and every i in -1..n (%d cases); mj_sleep on all states over {-3,-2,-1,0..n-1}, can vectors and set partitions for n <= %d" % (nmax, nexh, nS)
-    ctx.cov["rule"] = ("raw arrays: exhaustive small, random valid cycle structures with 35% corrupted entries; pipeline: piles of free boxes + sphere, 1500/3000 steps, ~1.2% of steps poked; "
+    ctx.cov["rule"] = ("raw arrays: exhaustive small, random valid cycle structures with 35% corrupted entries; pipeline: piles of free boxes + sphere, 1200/3000 steps, ~1.2% of steps poked; "
                        "non-trivial = number of observed awake->asleep and asleep->awake tree transitions in the pipeline runs")
     ctx.cov["samples"] = [coq_src[k][:300] for k in (1, len(coq_src) // 2, len(coq_src) - 1)]
     ctx.cov["support"]["pipeline"] = stats
